@@ -264,8 +264,23 @@ def _turn(draw):
 
 
 @st.composite
+def _fixture_flip_turns(draw):
+    """Three LLM-backend turns that build the SAME reflection prompt (same agent, turn id, utterance, no snippets) while the
+    fixtures file at one constant path goes ok -> missing -> ok: the adapter must look at the file as it is now."""
+    t = draw(_turn())
+    t.update({"allow": True, "flag": "state", "dry": False, "kill": False, "backend": "llm", "topk": 0,
+              "tokens": draw(st.sampled_from([3, 8, 128])), "ops": draw(st.sampled_from([1, 2, 5])), "time_ms": None,
+              "utter": draw(TEXTS) or "apple pear", "turn_id": 7, "jump": "none", "compute": {"mode": "real"},
+              "write": None, "tele": None, "embedfault": None, "site": "module"})
+    missing = draw(st.sampled_from(["absent", "other", "empty"]))
+    return [dict(t, fixture="ok"), dict(t, fixture=missing), dict(t, fixture="ok", completion=draw(TEXTS) or "pear")]
+
+
+@st.composite
 def turn_cases(draw):
     graphs = {"g1": draw(world.graph_specs(max_nodes=4, max_edges=5, ids=["a", "b", "c", "ä"]))}
+    if draw(st.sampled_from([True, False, False, False])):
+        return {"graphs": graphs, "eps": draw(_episodes()), "turns": draw(_fixture_flip_turns())}
     return {"graphs": graphs, "eps": draw(_episodes()), "turns": draw(st.lists(_turn(), min_size=1, max_size=3))}
 
 
@@ -583,6 +598,10 @@ def check_turns(case, rec=None):
                 expect_nothing, why = False, ""
                 if c["mode"] == "raise":
                     expect_nothing, why = True, "error injected at compute"
+                elif t["backend"] == "llm" and c["mode"] == "real" and t["fixture"] in ("absent", "empty", "garbage", "other"):
+                    # the fixtures file as it is NOW does not hold this prompt: nothing may be written, whether or not the
+                    # adapter noticed (a cached parse of an earlier file content must not be served)
+                    expect_nothing, why = True, f"missing fixture (file {t['fixture']})"
                 elif spy.raised is not None:
                     expect_nothing, why = True, ("missing fixture" if t["backend"] == "llm" and not fixture_ok else "error") + f" ({spy.raised}) at compute"
                 elif timeout:
